@@ -35,6 +35,7 @@ import (
 	"istio.io/istio/pkg/config/schema/kind"
 	"istio.io/istio/pkg/config/visibility"
 	"istio.io/istio/pkg/kube/kclient"
+	"istio.io/istio/pkg/maps"
 	"istio.io/istio/pkg/slices"
 	"istio.io/istio/pkg/util/sets"
 )
@@ -433,8 +434,11 @@ func (e *endpointSliceCache) Get(hostname host.Name) []*model.IstioEndpoint {
 func (e *endpointSliceCache) get(hostname host.Name) []*model.IstioEndpoint {
 	var endpoints []*model.IstioEndpoint
 	found := sets.New[endpointKey]()
-	for _, eps := range e.endpointsByServiceAndSlice[hostname] {
-		for _, ep := range eps {
+	// Walk the slices in name order, so that the order of the endpoints of a service with several slices does
+	// not depend on map iteration order (it would differ between instances and change on every update).
+	bySlice := e.endpointsByServiceAndSlice[hostname]
+	for _, slice := range slices.Sort(maps.Keys(bySlice)) {
+		for _, ep := range bySlice[slice] {
 			key := endpointKey{ep.FirstAddressOrNil(), ep.ServicePortName}
 			if found.InsertContains(key) {
 				// This a duplicate. Update() already handles conflict resolution, so we don't
